@@ -89,6 +89,7 @@ def run(chk, which="C13"):
 
     flav = ["G_trap", "L_plain"] if tier == "quick" else ["G_trap", "L_plain", "G_plain", "Lub_trap"]
     builds = [(rep, fl) for rep in REPS for fl in flav]
+    core.reach(chk, emit_tu("double", dict(list(units.items())[:6]), extra[:6]), [["layout"], ["ops", 60, 1], ["rt", 0, 2000, 1, 1, 1]])
 
     def do_build(job):
         rep, fl = job
